@@ -1,8 +1,11 @@
 (* C11 property theorems: statements only, each closed by `exact`.
    Model: coq/Model/C11Model.v (state = stores of taxa, namespaces, trees, tree lists, matrices, data sets;
    `step lower st op : state * out`).  `lower` is Python's str.lower on the label pool: a parameter. *)
+From Coq Require Import String.
 From Coq Require Import List Bool Arith ZArith.
 From DV Require Import Model.PyPrims Model.C11Model Proofs.C11Step3 Proofs.C11Final Proofs.C11Examples.
+From DV Require Import Model.C11Prims Gen.Containers Proofs.C11GenA Proofs.C11GenB Proofs.C11GenC Proofs.C11GenD
+  Proofs.C11GenE Proofs.C11GenF Proofs.C11GenG Proofs.C11GenH.
 Import ListNotations.
 Open Scope nat_scope.
 
@@ -284,3 +287,221 @@ Theorem removed_tree_example :
   Closed st /\ step ex_lower st (Pop 0 (-1)%Z) = (fst (step ex_lower st (Pop 0 (-1)%Z)), OId 2).
 Proof. exact pop_example_l. Qed.
 Print Assumptions removed_tree_example.
+
+(* ==== translator tie ====
+   coq/Gen/Containers.v is regenerated on every run from the AST of the current Python source
+   (py/dv/gen_containers.py; primitives with their assumed Python semantics: coq/Model/C11Prims.v).
+   The theorems below say that the translated methods compute exactly the corresponding case of the
+   hand-written `step` - same resulting state (also when the call raises), same outcome.
+   `strat_str` / `strat_kw` are the arguments the harness passes for a model strategy
+   (taxon_import_strategy=..., unify_taxa_by_label=...); `obs_unit` / `obs_id` map the result of a call to the
+   outcome the harness observes (Ok -> OUnit / OId, exception class -> OErr, TaxonNamespaceReconstructionError
+   -> ORecon, non-termination -> OErr Hang).  Preconditions are the validity checks `step` itself makes, that
+   member handles exist (part of Closed) and, for matrices, that the row keys are distinct (dict keys). *)
+
+(* Tree.reconstruct_taxon_namespace = the model's recon_refs loop + write-back *)
+Theorem gen_Tree_reconstruct_taxon_namespace : forall (lower : lbl -> lbl) st tr u om,
+  py_Tree_reconstruct_taxon_namespace lower st tr u om
+  = let n := t_ns (gettree st tr) in
+    let '(s1, refs', memo') := recon_refs lower st n u (t_refs (gettree st tr)) (kw_default om []) in
+    (set_tree s1 tr (mkTree n refs'), Ok memo').
+Proof. exact gen_Tree_reconstruct. Qed.
+Print Assumptions gen_Tree_reconstruct_taxon_namespace.
+
+(* Tree._clone_from (behind extend / += / + / slice assignment from a TreeList) = clone_tree *)
+Theorem gen_Tree__clone_from : forall (lower : lbl -> lbl) st tr n,
+  py_Tree__clone_from lower st tt tr (Some n)
+  = (fst (clone_tree lower st tr n), Ok (snd (clone_tree lower st tr n))).
+Proof. exact gen_Tree_clone_from. Qed.
+Print Assumptions gen_Tree__clone_from.
+
+(* CharacterMatrix.reconstruct_taxon_namespace = the model's recon_rows loop (incl. the collision check on
+   every branch: fresh look-up, new taxon, memo hit) *)
+Theorem gen_CharacterMatrix_reconstruct_taxon_namespace : forall (lower : lbl -> lbl) st m u om,
+  m < length (s_mats st) -> NoDup (m_rows (getmat st m)) ->
+  py_CharacterMatrix_reconstruct_taxon_namespace lower st m u om
+  = let n := m_ns (getmat st m) in
+    let rows := m_rows (getmat st m) in
+    let '(st1, rows', memo', ok) := recon_rows lower st n u rows rows (kw_default om []) in
+    (set_mat st1 m (mkMat n rows'), if ok then Ok memo' else Err OtherErr).
+Proof. exact gen_CM_reconstruct. Qed.
+Print Assumptions gen_CharacterMatrix_reconstruct_taxon_namespace.
+
+Theorem gen_step_Append : forall (lower : lbl -> lbl) st l tr s,
+  valid_list st l && valid_tree st tr = true ->
+  step lower st (Append l tr s) = obs_unit (py_TreeList_append lower st l tr (strat_str s) (strat_kw s)).
+Proof. exact step_Append_gen. Qed.
+Print Assumptions gen_step_Append.
+
+Theorem gen_step_Insert : forall (lower : lbl -> lbl) st l i tr s,
+  valid_list st l && valid_tree st tr = true ->
+  step lower st (Insert l i tr s) = obs_unit (py_TreeList_insert lower st l i tr (strat_str s) (strat_kw s)).
+Proof. exact step_Insert_gen. Qed.
+Print Assumptions gen_step_Insert.
+
+Theorem gen_step_Extend : forall (lower : lbl -> lbl) st l s,
+  valid_list st l && valid_src st s = true ->
+  step lower st (Extend l s) = obs_unit (py_TreeList_extend lower st l s).
+Proof. exact step_Extend_gen. Qed.
+Print Assumptions gen_step_Extend.
+
+Theorem gen_step_IAdd : forall (lower : lbl -> lbl) st l s,
+  valid_list st l && valid_src st s = true ->
+  step lower st (IAdd l s) = obs_unit (py_TreeList___iadd__ lower st l s).
+Proof. exact step_IAdd_gen. Qed.
+Print Assumptions gen_step_IAdd.
+
+Theorem gen_step_AddOp : forall (lower : lbl -> lbl) st l s,
+  valid_list st l && valid_src st s = true ->
+  step lower st (AddOp l s) = obs_id (py_TreeList___add__ lower st l s).
+Proof. exact step_AddOp_gen. Qed.
+Print Assumptions gen_step_AddOp.
+
+Theorem gen_step_SetItem : forall (lower : lbl -> lbl) st l i tr,
+  valid_list st l && valid_tree st tr = true ->
+  step lower st (SetItem l i tr) = obs_unit (py_TreeList___setitem__ lower st l (IdxInt i) (tr, SrcTrees [])).
+Proof. exact step_SetItem_gen. Qed.
+Print Assumptions gen_step_SetItem.
+
+Theorem gen_step_SetSlice : forall (lower : lbl -> lbl) st l a b s,
+  valid_list st l && valid_src st s = true ->
+  step lower st (SetSlice l a b s) = obs_unit (py_TreeList___setitem__ lower st l (IdxSlice a b) (0, s)).
+Proof. exact step_SetSlice_gen. Qed.
+Print Assumptions gen_step_SetSlice.
+
+Theorem gen_step_GetSlice : forall (lower : lbl -> lbl) st l a b,
+  valid_list st l = true ->
+  (forall tr, In tr (l_trees (getlist st l)) -> tr < length (s_trees st)) ->
+  step lower st (GetSlice l a b) = obs_id (py_TreeList___getitem__ lower st l (IdxSlice a b)).
+Proof. exact step_GetSlice_gen. Qed.
+Print Assumptions gen_step_GetSlice.
+
+Theorem gen_step_NewTreeIn : forall (lower : lbl -> lbl) st l nsarg refs,
+  valid_list st l && valid_nsopt st nsarg && forallb (valid_taxon st) refs = true ->
+  step lower st (NewTreeIn l nsarg refs) = obs_id (py_TreeList_new_tree st l (nsarg, refs)).
+Proof. exact step_NewTreeIn_gen. Qed.
+Print Assumptions gen_step_NewTreeIn.
+
+Theorem gen_step_Pop : forall (lower : lbl -> lbl) st l i,
+  valid_list st l = true -> step lower st (Pop l i) = obs_id (py_TreeList_pop st l i).
+Proof. exact step_Pop_gen. Qed.
+Print Assumptions gen_step_Pop.
+
+Theorem gen_step_Remove : forall (lower : lbl -> lbl) st l tr,
+  valid_list st l && valid_tree st tr = true -> step lower st (Remove l tr) = obs_unit (py_TreeList_remove st l tr).
+Proof. exact step_Remove_gen. Qed.
+Print Assumptions gen_step_Remove.
+
+Theorem gen_step_MigrateTree : forall (lower : lbl -> lbl) st tr n u,
+  valid_tree st tr && valid_ns st n = true ->
+  step lower st (MigrateTree tr n u) = obs_unit (py_Tree_migrate_taxon_namespace lower st tr (Some n) u None).
+Proof. exact step_MigrateTree_gen. Qed.
+Print Assumptions gen_step_MigrateTree.
+
+Theorem gen_step_ReconstructTree : forall (lower : lbl -> lbl) st tr u,
+  valid_tree st tr = true ->
+  step lower st (ReconstructTree tr u) = obs_unit (py_Tree_reconstruct_taxon_namespace lower st tr u None).
+Proof. exact step_ReconstructTree_gen. Qed.
+Print Assumptions gen_step_ReconstructTree.
+
+Theorem gen_step_UpdateTree : forall (lower : lbl -> lbl) st tr,
+  valid_tree st tr = true -> step lower st (UpdateTree tr) = obs_unit (py_Tree_update_taxon_namespace st tr).
+Proof. exact step_UpdateTree_gen. Qed.
+Print Assumptions gen_step_UpdateTree.
+
+Theorem gen_step_MigrateList : forall (lower : lbl -> lbl) st l n u,
+  valid_list st l && valid_ns st n = true -> (forall tr, In tr (l_trees (getlist st l)) -> tr < length (s_trees st)) ->
+  step lower st (MigrateList l n u) = obs_unit (py_TreeList_migrate_taxon_namespace lower st l (Some n) u None).
+Proof. exact step_MigrateList_gen. Qed.
+Print Assumptions gen_step_MigrateList.
+
+Theorem gen_step_ReconstructList : forall (lower : lbl -> lbl) st l u,
+  valid_list st l = true -> (forall tr, In tr (l_trees (getlist st l)) -> tr < length (s_trees st)) ->
+  step lower st (ReconstructList l u) = obs_unit (py_TreeList_reconstruct_taxon_namespace lower st l u None).
+Proof. exact step_ReconstructList_gen. Qed.
+Print Assumptions gen_step_ReconstructList.
+
+Theorem gen_step_UpdateList : forall (lower : lbl -> lbl) st l,
+  valid_list st l = true -> (forall tr, In tr (l_trees (getlist st l)) -> tr < length (s_trees st)) ->
+  step lower st (UpdateList l) = obs_unit (py_TreeList_update_taxon_namespace st l).
+Proof. exact step_UpdateList_gen. Qed.
+Print Assumptions gen_step_UpdateList.
+
+Theorem gen_step_MigrateMat : forall (lower : lbl -> lbl) st m n u,
+  valid_mat st m && valid_ns st n = true -> NoDup (m_rows (getmat st m)) ->
+  step lower st (MigrateMat m n u) = obs_unit (py_CharacterMatrix_migrate_taxon_namespace lower st m (Some n) u None).
+Proof. exact step_MigrateMat_gen. Qed.
+Print Assumptions gen_step_MigrateMat.
+
+Theorem gen_step_ReconstructMat : forall (lower : lbl -> lbl) st m u,
+  valid_mat st m = true -> NoDup (m_rows (getmat st m)) ->
+  step lower st (ReconstructMat m u) = obs_unit (py_CharacterMatrix_reconstruct_taxon_namespace lower st m u None).
+Proof. exact step_ReconstructMat_gen. Qed.
+Print Assumptions gen_step_ReconstructMat.
+
+Theorem gen_step_UpdateMat : forall (lower : lbl -> lbl) st m,
+  valid_mat st m = true -> step lower st (UpdateMat m) = obs_unit (py_CharacterMatrix_update_taxon_namespace st m).
+Proof. exact step_UpdateMat_gen. Qed.
+Print Assumptions gen_step_UpdateMat.
+
+Theorem gen_step_NewSeq : forall (lower : lbl -> lbl) st m x,
+  valid_mat st m && valid_taxon st x = true ->
+  step lower st (NewSeq m x) = obs_unit (py_CharacterMatrix_new_sequence st m x tt).
+Proof. exact step_NewSeq_gen. Qed.
+Print Assumptions gen_step_NewSeq.
+
+Theorem gen_step_SetRow : forall (lower : lbl -> lbl) st m k,
+  valid_mat st m && match k with KeyTaxon x => valid_taxon st x | _ => true end = true ->
+  step lower st (SetRow m k) = obs_unit (py_CharacterMatrix___setitem__ lower st m k tt).
+Proof. exact step_SetRow_gen. Qed.
+Print Assumptions gen_step_SetRow.
+
+Theorem gen_step_Attach : forall (lower : lbl -> lbl) st d n,
+  valid_ds st d && valid_ns st n = true ->
+  step lower st (Attach d n) = obs_unit (py_DataSet_attach_taxon_namespace st d (Some n)).
+Proof. exact step_Attach_gen. Qed.
+Print Assumptions gen_step_Attach.
+
+Theorem gen_step_DsAdd : forall (lower : lbl -> lbl) st d o,
+  valid_ds st d = true ->
+  match o with ObjNs n => valid_ns st n | ObjList l => valid_list st l | ObjMat m => valid_mat st m end = true ->
+  step lower st (DsAdd d o) = obs_unit (py_DataSet_add st d o).
+Proof. exact step_DsAdd_gen. Qed.
+Print Assumptions gen_step_DsAdd.
+
+(* DataSet.unify_taxon_namespaces: the tree lists first, then the matrices, ONE memo *)
+Theorem gen_step_Unify : forall (lower : lbl -> lbl) st d nsarg attach,
+  valid_ds st d && valid_nsopt st nsarg = true ->
+  (forall l, In l (d_lists (getds st d)) -> l < length (s_lists st)) ->
+  (forall l tr, In l (d_lists (getds st d)) -> In tr (l_trees (getlist st l)) -> tr < length (s_trees st)) ->
+  NoDup (d_mats (getds st d)) ->
+  (forall m, In m (d_mats (getds st d)) -> m < length (s_mats st) /\ NoDup (m_rows (getmat st m))) ->
+  step lower st (Unify d nsarg attach) = obs_unit (py_DataSet_unify_taxon_namespaces lower st d nsarg true attach).
+Proof. exact step_Unify_gen. Qed.
+Print Assumptions gen_step_Unify.
+
+(* purge_taxon_namespace: the code removes the un-polled taxa one by one, the model filters the member list
+   once: same objects, same members of every namespace (`state_eqv`), same outcome *)
+Theorem gen_step_PurgeTree : forall (lower : lbl -> lbl) st tr,
+  valid_tree st tr = true -> NoDup (members st (t_ns (gettree st tr))) ->
+  snd (py_Tree_purge_taxon_namespace st tr) = Ok tt
+  /\ snd (step lower st (PurgeTree tr)) = OUnit
+  /\ state_eqv (fst (py_Tree_purge_taxon_namespace st tr)) (fst (step lower st (PurgeTree tr))).
+Proof. exact step_PurgeTree_gen. Qed.
+Print Assumptions gen_step_PurgeTree.
+
+Theorem gen_step_PurgeList : forall (lower : lbl -> lbl) st l,
+  valid_list st l = true -> NoDup (members st (l_ns (getlist st l))) ->
+  snd (py_TreeList_purge_taxon_namespace st l) = Ok tt
+  /\ snd (step lower st (PurgeList l)) = OUnit
+  /\ state_eqv (fst (py_TreeList_purge_taxon_namespace st l)) (fst (step lower st (PurgeList l))).
+Proof. exact step_PurgeList_gen. Qed.
+Print Assumptions gen_step_PurgeList.
+
+Theorem gen_step_PurgeMat : forall (lower : lbl -> lbl) st m,
+  valid_mat st m = true -> NoDup (members st (m_ns (getmat st m))) ->
+  snd (py_CharacterMatrix_purge_taxon_namespace st m) = Ok tt
+  /\ snd (step lower st (PurgeMat m)) = OUnit
+  /\ state_eqv (fst (py_CharacterMatrix_purge_taxon_namespace st m)) (fst (step lower st (PurgeMat m))).
+Proof. exact step_PurgeMat_gen. Qed.
+Print Assumptions gen_step_PurgeMat.
